@@ -443,13 +443,40 @@ Definition cl_connected (g : cfg) (m : mon) (o : op) (x : wobs) : bool :=
 Definition cl_wait (g : cfg) (m : mon) (o : op) (x : wobs) : bool :=
   match o with OTimeout _ => forallb (fun b => b) (wo_chans x) | _ => true end.
 
+(* 12: a record handed on in the Completed event is a valid own record of the message *)
+Definition cl_evrec (g : cfg) (m : mon) (o : op) (x : wobs) : bool :=
+  match subj_peer g o, message_of o with
+  | Some p, Some cs =>
+      negb (existsb (fun e => fst e =? 4) (wo_events x))
+      || existsb (fun c => match m_rec (c_msg c) with REnv e => valid_own p e | _ => false end) cs
+  | _, _ => true
+  end.
+
+(* 13 (the address book's own per-peer cap, addr_book.go; the model is the book
+   whose cap does not bind, so this clause is judged on the implementation's
+   traces only): with the cap enabled, the peer's addresses below the connected
+   class number at most the cap — or what the peer had before the step, if that
+   was more *)
+Definition cl_bookcap (g : cfg) (m : mon) (o : op) (x : wobs) : bool :=
+  match subj_peer g o with
+  | Some p =>
+      if 0 <? g_pcap g
+      then cnt (fun t => t <? ConnectedAddrTTL) (nth_dump p (wo_dump x))
+           <=? Z.max (g_pcap g) (zlen (d_addrs (nth_dump p (mn_dump m))))
+      else true
+  | None => true
+  end.
+
 Definition clauses : list (Z * (cfg -> mon -> op -> wobs -> bool)) :=
   [(1, cl_calls); (2, cl_events); (3, cl_others); (4, cl_key); (5, cl_protos); (6, cl_cap);
-   (7, cl_source); (8, cl_recent); (9, cl_fallback); (10, cl_connected); (11, cl_wait)].
+   (7, cl_source); (8, cl_recent); (9, cl_fallback); (10, cl_connected); (11, cl_wait); (12, cl_evrec)].
 
 (* diagnostics: the numbers of the clauses that fail at this step *)
 Definition mon_step (g : cfg) (m : mon) (o : op) (x : wobs) : list Z :=
   flat_map (fun kc : Z * (cfg -> mon -> op -> wobs -> bool) => if snd kc g m o x then [] else [fst kc]) clauses.
+
+Definition mon_step_all (g : cfg) (m : mon) (o : op) (x : wobs) : list Z :=
+  mon_step g m o x ++ (if cl_bookcap g m o x then [] else [13]).
 
 Definition mon_next (g : cfg) (m : mon) (o : op) (x : wobs) : mon :=
   let '(n, p) := mon_net g m o in mkMon n p (wo_dump x).
@@ -464,6 +491,16 @@ Fixpoint mon_run (g : cfg) (m : mon) (i : Z) (tr : list (op * wobs)) : list Z :=
       end
   end.
 
+Fixpoint mon_run_all (g : cfg) (m : mon) (i : Z) (tr : list (op * wobs)) : list Z :=
+  match tr with
+  | [] => []
+  | (o, x) :: r =>
+      match mon_step_all g m o x with
+      | [] => mon_run_all g (mon_next g m o x) (i + 1) r
+      | d => ERR_PROPERTY :: i :: d
+      end
+  end.
+
 (* initial monitor state: the addresses the harness seeded, as a dump *)
 Definition mon_init (g : cfg) : mon := mkMon [] [] (dump_all (g_np g) (init_ps g)).
 
@@ -473,7 +510,7 @@ Definition init_wf (g : cfg) : bool :=
 
 Definition monitor_trace_case (l : list Z) : list Z :=
   match decode l with
-  | Some (g, tr) => if init_wf g then mon_run g (mon_init g) 0 tr else [ERR_MALFORMED; 1]
+  | Some (g, tr) => if init_wf g then mon_run_all g (mon_init g) 0 tr else [ERR_MALFORMED; 1]
   | None => [ERR_MALFORMED; 0]
   end.
 
